@@ -150,6 +150,11 @@ func genC18(seed int64, tier string) *Scenario {
 				sc.Ops = append(sc.Ops, Op{Kind: "touchq", Path: mainPath})
 			}
 			sc.Ops = append(sc.Ops, Op{Kind: "deliver"})
+			if r.Intn(3) == 0 {
+				// the deletion is reported a second time (watchers coalesce and repeat): an event for
+				// a path the server no longer knows must not disturb same-named files elsewhere
+				sc.Ops = append(sc.Ops, Op{Kind: "event", Path: p})
+			}
 		} else {
 			d := dirs[r.Intn(len(dirs))]
 			n := names[r.Intn(len(names))]
